@@ -132,8 +132,12 @@ pub fn gen_scenario(r: &mut Rng, seed: u64) -> Scenario {
         peers.push(PeerSpec { addr: addr(k), id: peer_id(k), entry: Entry::Incoming { at_ms: r.range(0, 5000) }, make: Box::new(move |nth| if nth > 1 { None } else { Some(crate::sim::peers::leecher(lc.clone())) }), chunk: 0, pipe: 1 << 20 });
     }
     let failpoints = if r.chance(1, 2) { Some(r.next()) } else { None };
-    let desc = json!({"seed": seed, "piece_length": torrent.piece_len, "pieces": n, "failpoints": failpoints.is_some(), "peers": pdesc});
-    Scenario { cfg: SimCfg { torrent, peers, tracker: vec![], failpoints, max_virtual_ms: 60_000, stop_on_extract: true, linger_ms: 3_000, disk_on: disk_on_ownership, seed, tracker_fn: None, driver: None }, desc }
+    // fault on disk: the file name of one piece is occupied by a non-empty directory, so that
+    // storing that piece fails at the very last step
+    let obstacle = if r.chance(1, 8) { Some(r.usize(n)) } else { None };
+    let desc = json!({"seed": seed, "piece_length": torrent.piece_len, "pieces": n, "failpoints": failpoints.is_some(), "piece_file_name_occupied_by_directory": obstacle, "peers": pdesc});
+    let pre: Option<Box<dyn FnOnce(&std::path::Path)>> = obstacle.map(|i| { let name = torrent.piece_file_name(i); Box::new(move |dir: &std::path::Path| { let d = dir.join(&name); let _ = std::fs::create_dir_all(&d); let _ = std::fs::write(d.join("occupied"), b"x"); }) as Box<dyn FnOnce(&std::path::Path)> });
+    Scenario { cfg: SimCfg { torrent, peers, tracker: vec![], failpoints, max_virtual_ms: 60_000, stop_on_extract: true, linger_ms: 3_000, disk_on: disk_on_ownership, seed, pre, tracker_fn: None, driver: None }, desc }
 }
 
 pub fn trace_around(o: &Outcome, at_seq: u64) -> Vec<String> {
@@ -282,7 +286,10 @@ pub fn gen_scenario_c11(r: &mut Rng, seed: u64) -> Scenario {
         let mut script: Vec<(u64, Vec<u8>)> = vec![];
         let mut first = Msg::handshake(&ih, &peer_id(k)).encode();
         first.extend_from_slice(&Msg::Bitfield(bitfield_bytes(&vec![false; n])).encode());
-        script.push((0, first));
+        // dialled observers may answer the client's handshake late: announcements made in between
+        // have to be held back and delivered after the unchoke like any other
+        let hs_delay = if !incoming && r.chance(1, 2) { r.range(200, 9_000) } else { 0 };
+        script.push((hs_delay, first));
         // choke/unchoke us at random; many stay choking for a long time and unchoke late
         let mut state_desc = vec![];
         let mut unchoked = false;
@@ -292,14 +299,14 @@ pub fn gen_scenario_c11(r: &mut Rng, seed: u64) -> Scenario {
             script.push((d, if unchoked { Msg::Unchoke } else { Msg::Choke }.encode()));
             state_desc.push((d, unchoked));
         }
-        pdesc.push(json!({"addr": addr(k), "persona": "observer", "incoming": incoming, "connects_at_ms": at, "choke_script(delay_ms,unchoked)": format!("{:?}", state_desc)}));
+        pdesc.push(json!({"addr": addr(k), "persona": "observer", "incoming": incoming, "connects_at_ms": at, "handshake_delay_ms": hs_delay, "choke_script(delay_ms,unchoked)": format!("{:?}", state_desc)}));
         let sc = script.clone();
         peers.push(PeerSpec { addr: addr(k), id: peer_id(k), entry: if incoming { Entry::Incoming { at_ms: at } } else { Entry::Dialled { from_announce: 0 } }, make: Box::new(move |nth| if nth > 1 { None } else { Some(scripted(sc.clone(), 10_000_000, false)) }), chunk: *r.pick(&[0usize, 0, 3]), pipe: 1 << 20 });
     }
     let failpoints = if r.chance(1, 2) { Some(r.next()) } else { None };
     let desc = json!({"seed": seed, "piece_length": torrent.piece_len, "pieces": n, "failpoints": failpoints.is_some(), "peers": pdesc});
     // run for a fixed virtual time after which everything is quiescent
-    Scenario { cfg: SimCfg { torrent, peers, tracker: vec![], failpoints, max_virtual_ms: 110_000, stop_on_extract: true, linger_ms: 25_000, disk_on: disk_on_ownership, seed, tracker_fn: None, driver: None }, desc }
+    Scenario { cfg: SimCfg { torrent, peers, tracker: vec![], failpoints, max_virtual_ms: 110_000, stop_on_extract: true, linger_ms: 25_000, disk_on: disk_on_ownership, seed, pre: None, tracker_fn: None, driver: None }, desc }
 }
 
 pub fn run_c11(ctx: &Ctx) -> Report {
